@@ -21,11 +21,17 @@
 //! when the cancel was issued after it finished); cancel on context A never changes a result on context B; the
 //! legacy thread-local settings of every thread are unchanged by anything another thread does and by settings-builder calls.
 //!
-//! Mutants caught (tools/mutant_run.sh G <diff> C24 quick):
-//!   C24-static-cancel-flag.diff   Context::cancel_flag made a process-wide static -> VIOLATION (cancel on ctx B changes op on ctx A)
+//! Big harnesses are explored by SHARD_PROCESSES worker processes (the SDK serialises signature operations behind
+//! one process-wide OpenSSL mutex); schedules are partitioned by their first grants, every schedule is executed,
+//! judged and counted by exactly one process.
+//!
+//! Mutants caught (mutant_run, quick tier):
+//!   C24-static-cancel-flag.diff   Context::cancel() also sets a process-wide flag that check_progress honours
+//!       -> VIOLATION  keys `cancelled-without-cancel act=read …`, `fresh-context-affected-by-earlier-contexts act=sign|read got=Cancelled`,
+//!          `free-running act=… got=Cancelled`
 
 use c2pa::{settings::Settings, Builder, Context, ProgressPhase, Reader};
-use kit::{assets, canon, gutil, par, sdk, Run};
+use kit::{assets, gutil, par, sdk, Run};
 use serde_json::{json, Value};
 use std::{
     cell::Cell,
@@ -66,6 +72,9 @@ thread_local! {
 }
 
 const HANG: Duration = Duration::from_secs(120);
+
+/// Set when a recorded schedule prefix could not be replayed (an actor that the prefix names was not enabled).
+static DIVERGED: std::sync::atomic::AtomicBool = std::sync::atomic::AtomicBool::new(false);
 
 impl Baton {
     fn new(n: usize) -> Arc<Baton> {
@@ -152,6 +161,8 @@ struct Harness {
     actors: Vec<ActorSpec>,
     n_ctx: usize,
     preemption_bound: Option<usize>,
+    /// explored by SHARD_PROCESSES worker processes (big harnesses)
+    sharded: bool,
 }
 
 #[derive(Clone, Debug, PartialEq)]
@@ -211,7 +222,7 @@ fn actor_body(spec: &ActorSpec, ctxs: &[Arc<Context>], fx: &Fixture) -> String {
                 Ok(Err(e)) => gutil::err_class(&e),
                 // judged by a clean, un-gated reader (the calling thread has no pending baton interest in it)
                 Ok(Ok(bytes)) => match sdk::read(sdk::ctx(), fx.asset.mime, &bytes) {
-                    Ok(r) => format!("Ok:{}", gutil::canon_masked(&r)),
+                    Ok(r) => format!("Ok:{}", gutil::canon2(&r, true)),
                     Err(e) => format!("Ok:unreadable {}", gutil::err_class(&e)),
                 },
             }
@@ -223,7 +234,7 @@ fn actor_body(spec: &ActorSpec, ctxs: &[Arc<Context>], fx: &Fixture) -> String {
                 Err(p) => format!("PANIC {p}"),
                 Ok(Err(c2pa::Error::OperationCancelled)) => "Cancelled".into(),
                 Ok(Err(e)) => gutil::err_class(&e),
-                Ok(Ok(r)) => format!("Ok:{}", canon::canon_string(&r)),
+                Ok(Ok(r)) => format!("Ok:{}", gutil::canon2(&r, false)),
             }
         }
         Act::Cancel => {
@@ -261,6 +272,8 @@ struct Execution {
     steps: Vec<(usize, Vec<usize>, String)>,
     results: Vec<ActorResult>,
     hang: bool,
+    /// false when another shard process owns (judges and counts) this schedule
+    owned: bool,
 }
 
 /// Run one execution: follow `prefix`, then continue non-preemptively (same actor while enabled, else lowest id).
@@ -292,10 +305,12 @@ fn execute(h: &Harness, fx: &Arc<Fixture>, prefix: &[usize]) -> Execution {
         }
         let d = steps.len();
         let choice = if d < prefix.len() {
-            if !en.contains(&prefix[d]) {
-                kit::ev::machinery(format!("C24: replayed prefix diverged at step {d}: actor {} not enabled (enabled {:?})", prefix[d], en));
+            if en.contains(&prefix[d]) {
+                prefix[d]
+            } else {
+                DIVERGED.store(true, Ordering::SeqCst);
+                en[0]
             }
-            prefix[d]
         } else {
             match steps.last() {
                 Some((p, _, _)) if en.contains(p) => *p,
@@ -308,13 +323,13 @@ fn execute(h: &Harness, fx: &Arc<Fixture>, prefix: &[usize]) -> Execution {
     }
     if hang {
         // leave the stuck threads behind; the run ends with a violation
-        return Execution { steps, results: vec![], hang: true };
+        return Execution { steps, results: vec![], hang: true, owned: true };
     }
     for hd in handles {
         let _ = hd.join();
     }
     let results = results.lock().unwrap_or_else(|e| e.into_inner()).iter().map(|r| r.clone().unwrap_or(ActorResult { result: "missing".into(), legacy_before: String::new(), legacy_after: String::new() })).collect();
-    Execution { steps, results, hang: false }
+    Execution { steps, results, hang: false, owned: true }
 }
 
 // ------------------------------------------------------------------------------------------------
@@ -417,21 +432,15 @@ fn execute_shuttle(h: &Harness, fx: &Arc<Fixture>, prefix: &[usize]) -> Executio
     par::quiet_panics(); // shuttle installs its own panic hook on first use
     let steps = steps.lock().unwrap_or_else(|e| e.into_inner()).clone();
     if diverged.load(Ordering::SeqCst) > 0 {
-        kit::ev::machinery(format!("C24: replayed prefix diverged at step {} (shuttle engine)", diverged.load(Ordering::SeqCst) - 1));
+        DIVERGED.store(true, Ordering::SeqCst);
     }
     if let Err(p) = out {
         // deadlock or a panic that escaped an actor: reported as a hang-class violation by the judge
         let _ = p;
-        return Execution { steps, results: vec![], hang: true };
+        return Execution { steps, results: vec![], hang: true, owned: true };
     }
     let results = results.lock().unwrap_or_else(|e| e.into_inner()).iter().map(|r| r.clone().unwrap_or(ActorResult { result: "missing".into(), legacy_before: String::new(), legacy_after: String::new() })).collect();
-    Execution { steps, results, hang: false }
-}
-
-fn cpu_time() -> f64 {
-    let mut ts = libc::timespec { tv_sec: 0, tv_nsec: 0 };
-    unsafe { libc::clock_gettime(libc::CLOCK_PROCESS_CPUTIME_ID, &mut ts) };
-    ts.tv_sec as f64 + ts.tv_nsec as f64 * 1e-9
+    Execution { steps, results, hang: false, owned: true }
 }
 
 fn needs_os_threads(h: &Harness) -> bool {
@@ -457,7 +466,33 @@ struct Refs {
     legacy_after_from_toml: String,
 }
 
-fn judge(run: &Run, h: &Harness, refs: &Refs, ex: &Execution) {
+/// Where judgements go (a Run in this process, or a buffer that a shard process prints for its parent).
+#[derive(Default)]
+struct Sink {
+    violations: Vec<(String, String, Value)>,
+    outcomes: BTreeMap<String, u64>,
+}
+
+impl Sink {
+    fn outcome(&mut self, k: impl Into<String>) {
+        *self.outcomes.entry(k.into()).or_insert(0) += 1;
+    }
+    fn violation(&mut self, key: impl Into<String>, what: impl Into<String>, case: Value) {
+        if self.violations.len() < 200 {
+            self.violations.push((key.into(), what.into(), case));
+        }
+    }
+    fn flush(&mut self, run: &Run) {
+        for (k, n) in std::mem::take(&mut self.outcomes) {
+            run.outcome_n(k, n);
+        }
+        for (k, w, c) in std::mem::take(&mut self.violations) {
+            run.violation(k, w, c);
+        }
+    }
+}
+
+fn judge(run: &mut Sink, h: &Harness, refs: &Refs, ex: &Execution) {
     let schedule: Vec<usize> = ex.steps.iter().map(|s| s.0).collect();
     let case = json!({"harness": h.name, "schedule": schedule});
     if ex.hang {
@@ -661,7 +696,20 @@ fn children_of(steps: &[(usize, Vec<usize>, String)], from: usize, bound: Option
 }
 
 /// Body of one worker: runs executions until the work stack is exhausted.
-fn shuttle_worker(work: Arc<Work>, actors: Vec<ActorSpec>, n_ctx: usize, bound: Option<usize>, fx: Arc<Fixture>) {
+/// Schedules are partitioned over shard PROCESSES by their first SHARD_K grants (the SDK serialises signature
+/// operations behind one process-wide OpenSSL mutex, so one process cannot use 16 cores). Prefixes no longer than
+/// SHARD_K are executed by every shard, judged and counted only by the owner of the resulting schedule.
+const SHARD_K: usize = 6;
+
+fn owner_of(schedule_head: &[usize], shards: usize) -> usize {
+    let mut h: usize = 17;
+    for a in schedule_head.iter().take(SHARD_K) {
+        h = h.wrapping_mul(31).wrapping_add(*a + 1);
+    }
+    h % shards.max(1)
+}
+
+fn shuttle_worker(work: Arc<Work>, actors: Vec<ActorSpec>, n_ctx: usize, bound: Option<usize>, fx: Arc<Fixture>, shard: (usize, usize)) {
     loop {
         let sched = PullSched { work: work.clone(), n_actors: actors.len() };
         let mut cfg = shuttle::Config::default();
@@ -707,10 +755,13 @@ fn shuttle_worker(work: Arc<Work>, actors: Vec<ActorSpec>, n_ctx: usize, bound: 
                     w.in_execution = false;
                     (std::mem::take(&mut w.steps), w.prefix.len())
                 });
-                let kids = children_of(&steps, plen, bound);
+                let mut kids = children_of(&steps, plen, bound);
+                kids.retain(|p| p.len() <= SHARD_K || owner_of(p, shard.1) == shard.0);
+                let head: Vec<usize> = steps.iter().map(|s| s.0).collect();
+                let owned = owner_of(&head, shard.1) == shard.0;
                 work2.stack.lock().unwrap_or_else(|e| e.into_inner()).extend(kids);
                 let results = results.lock().unwrap_or_else(|e| e.into_inner()).iter().map(|r| r.clone().unwrap_or(ActorResult { result: "missing".into(), legacy_before: String::new(), legacy_after: String::new() })).collect();
-                work2.done.lock().unwrap_or_else(|e| e.into_inner()).push(Execution { steps, results, hang: false });
+                work2.done.lock().unwrap_or_else(|e| e.into_inner()).push(Execution { steps, results, hang: false, owned });
                 work2.active.fetch_sub(1, Ordering::SeqCst);
             })
         });
@@ -726,7 +777,7 @@ fn shuttle_worker(work: Arc<Work>, actors: Vec<ActorSpec>, n_ctx: usize, bound: 
                     (std::mem::take(&mut w.steps), was)
                 });
                 if was_in {
-                    work.done.lock().unwrap_or_else(|e| e.into_inner()).push(Execution { steps, results: vec![], hang: true });
+                    work.done.lock().unwrap_or_else(|e| e.into_inner()).push(Execution { steps, results: vec![], hang: true, owned: true });
                     work.active.fetch_sub(1, Ordering::SeqCst);
                 } else {
                     return;
@@ -736,14 +787,17 @@ fn shuttle_worker(work: Arc<Work>, actors: Vec<ActorSpec>, n_ctx: usize, bound: 
     }
 }
 
-fn explore_shuttle(run: &Run, h: &Harness, refs: &Refs, fx: &Arc<Fixture>) -> Stats {
+/// Explore (this process's share of) a harness with the persistent shuttle engine.
+fn explore_shuttle_local(h: &Harness, refs: &Refs, fx: &Arc<Fixture>, shard: (usize, usize), threads: usize) -> (Stats, Sink, Vec<Value>) {
     let work = Arc::new(Work { stack: Mutex::new(vec![vec![]]), active: AtomicU64::new(0), done: Mutex::new(vec![]), diverged: AtomicU64::new(0) });
     let mut handles = vec![];
-    for _ in 0..par::workers() {
+    for _ in 0..threads.max(1) {
         let (w, a, n, b, f) = (work.clone(), h.actors.clone(), h.n_ctx, h.preemption_bound, fx.clone());
-        handles.push(std::thread::spawn(move || shuttle_worker(w, a, n, b, f)));
+        handles.push(std::thread::spawn(move || shuttle_worker(w, a, n, b, f, shard)));
     }
     let mut st = Stats { executions: 0, transitions: 0, alternating: 0, max_len: 0 };
+    let mut sink = Sink::default();
+    let mut samples = vec![];
     let mut sampled = 0u64;
     loop {
         let finished = handles.iter().all(|h| h.is_finished());
@@ -756,16 +810,19 @@ fn explore_shuttle(run: &Run, h: &Harness, refs: &Refs, fx: &Arc<Fixture>) -> St
             continue;
         }
         for ex in batch {
+            if !ex.owned {
+                continue;
+            }
             st.executions += 1;
             st.transitions += ex.steps.len() as u64;
             st.max_len = st.max_len.max(ex.steps.len());
             if preemptions(&ex.steps, ex.steps.len()) >= 2 {
                 st.alternating += 1;
             }
-            judge(run, h, refs, &ex);
+            judge(&mut sink, h, refs, &ex);
             sampled += 1;
-            if sampled % 4001 == 7 && !ex.hang {
-                run.sample(json!({"harness": h.name, "engine": "shuttle", "schedule": ex.steps.iter().map(|s| s.0).collect::<Vec<_>>(),
+            if sampled % 4001 == 7 && !ex.hang && samples.len() < 2 {
+                samples.push(json!({"harness": h.name, "engine": "shuttle", "schedule": ex.steps.iter().map(|s| s.0).collect::<Vec<_>>(),
                     "gates_left": ex.steps.iter().map(|s| format!("{}:{}", s.0, s.2)).collect::<Vec<_>>(),
                     "results": ex.results.iter().map(|r| short_result(&r.result)).collect::<Vec<_>>() }));
             }
@@ -775,7 +832,83 @@ fn explore_shuttle(run: &Run, h: &Harness, refs: &Refs, fx: &Arc<Fixture>) -> St
         let _ = hd.join();
     }
     if work.diverged.load(Ordering::SeqCst) > 0 {
-        kit::ev::machinery(format!("C24: a replayed schedule prefix diverged at step {} in harness {} (shuttle engine)", work.diverged.load(Ordering::SeqCst) - 1, h.name));
+        DIVERGED.store(true, Ordering::SeqCst);
+    }
+    (st, sink, samples)
+}
+
+const SHARD_PROCESSES: usize = 8;
+
+/// Shard process entry (VERIF_C24_SHARD="me/P", VERIF_C24_HARNESS=name): explore the share, print one JSON line.
+fn shard_main(tier_thorough: bool) -> ! {
+    par::quiet_panics();
+    let spec = std::env::var("VERIF_C24_SHARD").unwrap_or_default();
+    let mut it = spec.split('/').filter_map(|x| x.parse::<usize>().ok());
+    let (me, p) = (it.next().unwrap_or(0), it.next().unwrap_or(1));
+    let name = std::env::var("VERIF_C24_HARNESS").unwrap_or_default();
+    let fx = fixture();
+    let refs = sequential_refs(&fx);
+    let hs = harnesses_for(tier_thorough);
+    let Some(h) = hs.iter().find(|h| h.name == name) else { std::process::exit(5) };
+    let threads = (2 * par::workers()).div_ceil(p).max(2);
+    let (st, sink, samples) = explore_shuttle_local(h, &refs, &fx, (me, p), threads);
+    let out = json!({"executions": st.executions, "transitions": st.transitions, "alternating": st.alternating, "max_len": st.max_len,
+        "outcomes": sink.outcomes, "violations": sink.violations.iter().map(|(k, w, c)| json!([k, w, c])).collect::<Vec<_>>(),
+        "samples": samples, "diverged": DIVERGED.load(Ordering::SeqCst)});
+    println!("{out}");
+    std::process::exit(0);
+}
+
+fn explore_shuttle(run: &Run, h: &Harness, refs: &Refs, fx: &Arc<Fixture>) -> Stats {
+    if !h.sharded {
+        let (st, mut sink, samples) = explore_shuttle_local(h, refs, fx, (0, 1), 2 * par::workers());
+        sink.flush(run);
+        samples.into_iter().for_each(|s| run.sample(s));
+        return st;
+    }
+    let exe = std::env::current_exe().unwrap_or_else(|e| kit::ev::machinery(format!("C24: current_exe: {e}")));
+    let outs: Mutex<Vec<Value>> = Mutex::new(vec![]);
+    std::thread::scope(|s| {
+        for me in 0..SHARD_PROCESSES {
+            let (exe, outs, name) = (&exe, &outs, &h.name);
+            let tier = run.tier.name();
+            s.spawn(move || {
+                let o = std::process::Command::new(exe)
+                    .args(["C24", "--tier", tier])
+                    .env("VERIF_C24_SHARD", format!("{me}/{SHARD_PROCESSES}"))
+                    .env("VERIF_C24_HARNESS", name)
+                    .stderr(std::process::Stdio::null())
+                    .output()
+                    .unwrap_or_else(|e| kit::ev::machinery(format!("C24: cannot run shard process: {e}")));
+                if !o.status.success() {
+                    kit::ev::machinery(format!("C24: shard process {me} of {name} failed: {:?}", o.status));
+                }
+                let line = o.stdout.split(|b| *b == b'\n').filter(|l| l.starts_with(b"{")).last().map(|l| l.to_vec()).unwrap_or_default();
+                let v: Value = serde_json::from_slice(&line).unwrap_or_else(|e| kit::ev::machinery(format!("C24: shard output unreadable: {e}")));
+                outs.lock().unwrap().push(v);
+            });
+        }
+    });
+    let mut st = Stats { executions: 0, transitions: 0, alternating: 0, max_len: 0 };
+    for v in outs.into_inner().unwrap() {
+        st.executions += v["executions"].as_u64().unwrap_or(0);
+        st.transitions += v["transitions"].as_u64().unwrap_or(0);
+        st.alternating += v["alternating"].as_u64().unwrap_or(0);
+        st.max_len = st.max_len.max(v["max_len"].as_u64().unwrap_or(0) as usize);
+        if v["diverged"].as_bool().unwrap_or(false) {
+            DIVERGED.store(true, Ordering::SeqCst);
+        }
+        if let Some(m) = v["outcomes"].as_object() {
+            for (k, n) in m {
+                run.outcome_n(k.clone(), n.as_u64().unwrap_or(0));
+            }
+        }
+        for x in v["violations"].as_array().cloned().unwrap_or_default() {
+            run.violation(x[0].as_str().unwrap_or("?").to_string(), x[1].as_str().unwrap_or("").to_string(), x[2].clone());
+        }
+        for x in v["samples"].as_array().cloned().unwrap_or_default() {
+            run.sample(x);
+        }
     }
     st
 }
@@ -838,12 +971,12 @@ fn explore(run: &Run, h: &Harness, refs: &Refs, fx: &Arc<Fixture>) -> Stats {
                 }
                 stack.lock().unwrap().extend(children);
                 // judge; a violation seen during the parallel sweep is re-executed alone before it is reported
-                let probe = Run::new("C24", run.tier, "model_checking");
-                judge(&probe, h, refs, &ex);
-                if probe.violation_count() > 0 {
+                let mut probe = Sink::default();
+                judge(&mut probe, h, refs, &ex);
+                if !probe.violations.is_empty() {
                     suspects.lock().unwrap().push(ex.steps.iter().map(|s| s.0).collect());
                 } else {
-                    judge(run, h, refs, &ex);
+                    probe.flush(run);
                 }
                 if sampled.fetch_add(1, Ordering::Relaxed) % 4001 == 7 {
                     run.sample(json!({"harness": h.name, "schedule": ex.steps.iter().map(|s| s.0).collect::<Vec<_>>(),
@@ -857,10 +990,10 @@ fn explore(run: &Run, h: &Harness, refs: &Refs, fx: &Arc<Fixture>) -> Stats {
     // re-execute suspects alone (no other explorer running)
     for sch in suspects.into_inner().unwrap() {
         let ex = run_schedule(h, fx, &sch);
-        let probe = Run::new("C24", run.tier, "model_checking");
-        judge(&probe, h, refs, &ex);
-        if probe.violation_count() > 0 {
-            judge(run, h, refs, &ex);
+        let mut probe = Sink::default();
+        judge(&mut probe, h, refs, &ex);
+        if !probe.violations.is_empty() {
+            probe.flush(run);
         } else {
             run.outcome("violation only while other explorer workers were running");
             run.violation(
@@ -874,13 +1007,19 @@ fn explore(run: &Run, h: &Harness, refs: &Refs, fx: &Arc<Fixture>) -> Stats {
 }
 
 fn harnesses(run: &Run) -> Vec<Harness> {
+    harnesses_for(run.tier.is_thorough())
+}
+
+fn harnesses_for(t: bool) -> Vec<Harness> {
     use Act::*;
     let a = |act: Act, ctx: usize| ActorSpec { act, ctx };
     let mk = |name: &str, actors: Vec<ActorSpec>, bound: Option<usize>| {
         let n_ctx = actors.iter().map(|s| s.ctx).max().unwrap_or(0) + 1;
-        Harness { name: name.to_string(), actors, n_ctx, preemption_bound: bound }
+        // big = two operations with many checkpoints each, or three threads
+        let ops = actors.iter().filter(|s| matches!(s.act, Act::Sign | Act::Read)).count();
+        let os_threads = actors.iter().any(|s| matches!(s.act, Act::SettingsBuilder | Act::LegacyFromToml));
+        Harness { name: name.to_string(), sharded: ops >= 2 && !os_threads && bound.is_none(), actors, n_ctx, preemption_bound: bound }
     };
-    let t = run.tier.is_thorough();
     let mut v = vec![
         mk("sign(A)||read(A)", vec![a(Sign, 0), a(Read, 0)], None),
         mk("read(A)||read(A)", vec![a(Read, 0), a(Read, 0)], None),
@@ -911,10 +1050,38 @@ fn fixture() -> Arc<Fixture> {
     Arc::new(Fixture { asset, signed })
 }
 
+/// One operation alone on a fresh context (its own thread, baton always granted).
+fn alone(act: Act, fx: &Arc<Fixture>) -> Option<ActorResult> {
+    let h = Harness { name: "sequential".into(), actors: vec![ActorSpec { act, ctx: 0 }], n_ctx: 1, preemption_bound: None, sharded: false };
+    let ex = execute(&h, fx, &[]);
+    if ex.hang { None } else { ex.results.into_iter().next() }
+}
+
+/// After a harness: fresh contexts must still behave as they did at the start. Returns false when they do not
+/// (a violation has been recorded: something done to earlier contexts leaked into the process).
+fn fresh_contexts_unaffected(run: &Run, refs: &Refs, fx: &Arc<Fixture>, after: &str) -> bool {
+    let mut ok = true;
+    for (act, want) in [(Act::Sign, &refs.sign), (Act::Read, &refs.read)] {
+        let got = alone(act.clone(), fx).map(|r| r.result).unwrap_or_else(|| "hang".into());
+        run.eval();
+        if &got != want {
+            ok = false;
+            let actn = format!("{act:?}").to_lowercase();
+            run.outcome("fresh context affected by earlier contexts");
+            run.violation(
+                format!("fresh-context-affected-by-earlier-contexts act={actn} got={}", short_result(&got).split(':').next().unwrap_or("")),
+                format!("after exploring {after}: {actn} alone on a FRESH context now ends with {} instead of its initial sequential result — state of earlier contexts (e.g. a cancel) leaked process-wide", short_result(&got)),
+                json!({"harness": after, "schedule": [], "note": "run the harness, then one operation alone on a fresh context"}),
+            );
+        }
+    }
+    ok
+}
+
 fn sequential_refs(fx: &Arc<Fixture>) -> Refs {
     // each operation alone, on its own thread, with a gated context that is always granted immediately
     let one = |act: Act| -> ActorResult {
-        let h = Harness { name: "sequential".into(), actors: vec![ActorSpec { act, ctx: 0 }], n_ctx: 1, preemption_bound: None };
+        let h = Harness { name: "sequential".into(), actors: vec![ActorSpec { act, ctx: 0 }], n_ctx: 1, preemption_bound: None, sharded: false };
         let ex = execute(&h, fx, &[]);
         if ex.hang {
             kit::ev::machinery("C24: sequential reference run hangs");
@@ -937,6 +1104,9 @@ fn sequential_refs(fx: &Arc<Fixture>) -> Refs {
 }
 
 pub fn run(run: &Run, replay: Option<&Value>) {
+    if std::env::var("VERIF_C24_SHARD").is_ok() {
+        shard_main(run.tier.is_thorough());
+    }
     run.rule(
         "per harness (threads over shared/distinct contexts) ALL schedules of baton grants are executed (stateless DFS; where a preemption bound is stated, all schedules within it). \
          evaluations = executions = states; transitions = baton grants (segments executed). non-trivial = executions in which control actually alternates: at least two preemptions \
@@ -966,54 +1136,14 @@ pub fn run(run: &Run, replay: Option<&Value>) {
         run.eval();
         run.states(1);
         run.transitions(ex.steps.len() as u64);
-        judge(run, h, &refs, &ex);
+        let mut sk = Sink::default();
+        judge(&mut sk, h, &refs, &ex);
+        sk.flush(run);
+        // whatever the schedule did to its contexts, fresh contexts must behave as before
+        fresh_contexts_unaffected(run, &refs, &fx, &h.name);
         return;
     }
 
-    if std::env::var("VERIF_C24_BENCH").is_ok() {
-        let hc = Harness { name: "cancel||cancel".into(), actors: vec![ActorSpec { act: Act::Cancel, ctx: 0 }, ActorSpec { act: Act::Cancel, ctx: 0 }], n_ctx: 1, preemption_bound: None };
-        let hr = Harness { name: "read".into(), actors: vec![ActorSpec { act: Act::Read, ctx: 0 }], n_ctx: 1, preemption_bound: None };
-        let hsg = Harness { name: "sign".into(), actors: vec![ActorSpec { act: Act::Sign, ctx: 0 }], n_ctx: 1, preemption_bound: None };
-        for (hn, hh) in [("cancel||cancel", &hc), ("read alone", &hr), ("sign alone", &hsg)] {
-            for (name, f) in [("baton", execute as fn(&Harness, &Arc<Fixture>, &[usize]) -> Execution), ("shuttle", execute_shuttle)] {
-                let t = std::time::Instant::now();
-                let c0 = cpu_time();
-                for _ in 0..200 { let _ = f(hh, &fx, &[]); }
-                println!("{hn} {name}: wall {:?}/execution, cpu {:.3} ms/execution", t.elapsed() / 200, (cpu_time() - c0) * 1000.0 / 200.0);
-            }
-        }
-        let h = &hs[0];
-        for (name, f) in [("baton", execute as fn(&Harness, &Arc<Fixture>, &[usize]) -> Execution), ("shuttle", execute_shuttle)] {
-            let t = std::time::Instant::now();
-            let c0 = cpu_time();
-            for _ in 0..200 {
-                let ex = f(h, &fx, &[0, 1, 0, 1, 0, 1]);
-                assert!(!ex.hang);
-            }
-            println!("{name}: wall {:?}/execution, process cpu {:.3} ms/execution", t.elapsed() / 200, (cpu_time() - c0) * 1000.0 / 200.0);
-        }
-        {
-            let hb = Harness { name: "read(A)||read(A)".into(), actors: vec![ActorSpec { act: Act::Read, ctx: 0 }, ActorSpec { act: Act::Read, ctx: 0 }], n_ctx: 1, preemption_bound: None };
-            let t = std::time::Instant::now();
-            let c0 = cpu_time();
-            let st = explore_shuttle(run, &hb, &refs, &fx);
-            println!("persistent shuttle read||read: {} executions, wall {:?}, cpu {:.3} ms/execution", st.executions, t.elapsed(), (cpu_time() - c0) * 1000.0 / st.executions as f64);
-        }
-        let time = |name: &str, f: &dyn Fn()| {
-            let c0 = cpu_time();
-            for _ in 0..200 { f(); }
-            println!("{name}: cpu {:.3} ms", (cpu_time() - c0) * 1000.0 / 200.0);
-        };
-        time("sdk::ctx()", &|| { let _ = sdk::ctx(); });
-        time("Context::new()", &|| { let _ = Context::new(); });
-        let ctx = sdk::ctx().into_shared();
-        time("read", &|| { let _ = Reader::from_shared_context(&ctx).with_stream(fx.asset.mime, Cursor::new(&fx.signed)); });
-        time("sign+readback", &|| { let _ = actor_body(&ActorSpec { act: Act::Sign, ctx: 0 }, &[ctx.clone()], &fx); });
-        time("legacy_snapshot", &|| { let _ = legacy_snapshot(); });
-        time("thread spawn+join", &|| { let _ = std::thread::spawn(|| {}).join(); });
-        run.eval();
-        return;
-    }
     let mut per: BTreeMap<String, Value> = BTreeMap::new();
     let t0 = std::time::Instant::now();
     for h in &hs {
@@ -1029,12 +1159,21 @@ pub fn run(run: &Run, replay: Option<&Value>) {
         run.traces(st.executions);
         run.transitions(st.transitions);
         run.nontrivial_n(st.alternating);
+        let unaffected = fresh_contexts_unaffected(run, &refs, &fx, &h.name);
+        if DIVERGED.load(Ordering::SeqCst) && unaffected {
+            kit::ev::machinery(format!("C24: a recorded schedule prefix of {} could not be replayed although fresh contexts behave as before (harness nondeterminism)", h.name));
+        }
+        if !unaffected {
+            run.cap_hit("exploration stopped: process-wide state changed, later executions would not be independent");
+            break;
+        }
         per.insert(h.name.clone(), json!({"interleavings": st.executions, "segments_executed": st.transitions, "with_2+_preemptions": st.alternating, "longest_schedule": st.max_len, "unbounded": exhaustive_all, "elapsed_s": t0.elapsed().as_secs_f64()}));
     }
     run.extra("harnesses", json!(per));
 
+
     // free-running pass: real threads, no baton, shared and distinct contexts
-    let n = run.tier.pick(40u64, 400u64);
+    let n = run.tier.pick(12u64, 400u64);
     let free_viol = AtomicU64::new(0);
     for round in 0..n {
         let shared = sdk::ctx().into_shared();
